@@ -928,8 +928,10 @@ def pop_until_nth_list(ctx: "Wtp", list_token: str) -> None:
         _parser_pop(ctx, True)
 
 
-def text_fn(ctx: "Wtp", token: str) -> None:
-    """Inserts the token as raw text into the parse tree."""
+def text_fn(ctx: "Wtp", token: str, literal: bool = False) -> None:
+    """Inserts the token as raw text into the parse tree.  With ``literal``
+    (text from <nowiki>) the token is never interpreted: it is neither the
+    URL/label separator of an external link nor a link trail."""
     close_begline_lists(ctx)
 
     node = ctx.parser_stack[-1]
@@ -942,7 +944,7 @@ def text_fn(ctx: "Wtp", token: str) -> None:
 
     # External links [https://...] require some magic.  They only seem to
     # be links if the content looks like a URL."""
-    if node.kind == NodeKind.URL:
+    if node.kind == NodeKind.URL and not literal:
         if not node.largs and not node.children:
             # ":" is a token of its own, so of "mailto:x" or "ftp://x" only
             # the scheme name arrives here first
@@ -1036,6 +1038,7 @@ def text_fn(ctx: "Wtp", token: str) -> None:
         and node.children[-1].kind == NodeKind.LINK
         and not node.children[-1].children
         and not ctx.suppress_special
+        and not literal
     ):
         m = ctx.linktrailing_re.match(token)
         if m:
@@ -1358,7 +1361,7 @@ def magic_fn(ctx: "Wtp", token: str) -> None:
     elif kind == "N":  # Nowiki
         # Replace nowiki by the escaped versions here
         text = nowiki_quote(args[0])
-        text_fn(ctx, text)
+        text_fn(ctx, text, literal=True)
     else:
         ctx.error(
             "magic_fn: unsupported cookie kind {!r}".format(kind),
